@@ -28,6 +28,17 @@ THEOREMS = ['RB.ConfigDoc.c19_never_crash', 'RB.ConfigDoc.c19_accepted_or_reject
 
 
 # ------------------------------------------------------------------ wire format
+def is_recursive(o, stack=()):
+    """a self-referential anchor gives a cyclic object: the model cannot be given it"""
+    if isinstance(o, (list, dict)):
+        if id(o) in stack:
+            return True
+        st = stack + (id(o),)
+        items = list(o.values()) + list(o.keys()) if isinstance(o, dict) else o
+        return any(is_recursive(x, st) for x in items)
+    return False
+
+
 def to_wire(o):
     if o is None or isinstance(o, (bool, str)):
         return o
@@ -169,7 +180,7 @@ def gen_valid(rng):
     return cfg
 
 
-POOL = ['/tmp', '.', '{x}', 'a{0}b', '{', '}}', '{}', {'{k}': {}}, ['{s}'], None, {}, [], '', 'abc', '3!', '!', 'x!', 2.5, True, False, 0, -1, 7, '2.5', ' 4 ', '1_0', [1], ['a', None], [None],
+POOL = ['q\0.data', '/tmp', '.', '{x}', 'a{0}b', '{', '}}', '{}', {'{k}': {}}, ['{s}'], None, {}, [], '', 'abc', '3!', '!', 'x!', 2.5, True, False, 0, -1, 7, '2.5', ' 4 ', '1_0', [1], ['a', None], [None],
         {'a': 1}, {'a': {}, 'b': {}}, {'a': None}, '~x', 'profile', 'benchmark', 'profiler', 'all', 'S1', 'E1', 'X1',
         datetime.date(2020, 1, 2), 1e100, 'inf', ['S1'], ['E1'], [['S1']], {'perf': {}}, {'perf': {'record_args': None}},
         {'other': {}}, {'suites': None}, {'suites': ['S1']}, {'invocations': ''}, {'cores': None}, [{}]]
@@ -359,6 +370,16 @@ experiments:
     ('quoted-invocations-everywhere', 'runs: {invocations: "5", iterations: "3", warmup: "1"}\n'
         'benchmark_suites:\n  S1: {gauge_adapter: Time, command: "c %(iterations)s", iterations: "4", benchmarks: [b1, {b2: {invocations: "2", warmup: "0"}}]}\n'
         'executors:\n  E1: {executable: x, invocations: "6"}\nexperiments:\n  X: {suites: [S1], executions: [{E1: {iterations: "7"}}], invocations: "8"}\n'),
+    ('recursive-anchor-experiments', 'experiments: &r {X: *r}\n'),
+    ('recursive-anchor-dot-key', '.x: &r [*r]\nexperiments: {}\n'),
+    ('recursive-anchor-env', 'runs: &r {env: *r}\n'),
+    ('recursive-anchor-suite', 'benchmark_suites: &r\n  S1: {gauge_adapter: Time, command: c, benchmarks: [b], build: *r}\n'),
+    ('nul-data-file', 'benchmark_suites:\n  S1: {gauge_adapter: Time, command: c, benchmarks: [b]}\nexecutors:\n  E1: {executable: x}\n'
+                      'experiments:\n  X: {suites: [S1], executions: [E1], data_file: "q\\0.data"}\n'),
+    ('nul-default-data-file', 'default_data_file: "q\\0.data"\nbenchmark_suites:\n  S1: {gauge_adapter: Time, command: c, benchmarks: [b]}\n'
+                              'executors:\n  E1: {executable: x}\nexperiments:\n  X: {suites: [S1], executions: [E1]}\n'),
+    ('nul-in-names', 'benchmark_suites:\n  "S\\01": {gauge_adapter: Time, command: "c\\0", benchmarks: ["b\\0"]}\nexecutors:\n  E1: {executable: x}\n'
+                     'experiments:\n  X: {suites: ["S\\01"], executions: [E1]}\n'),
     ('empty-key', 'benchmark_suites:\n  "": {gauge_adapter: Time, command: c, benchmarks: [b]}\n'),
 ]
 
@@ -427,11 +448,20 @@ def unreadable_files(ck, doc):
     return sorted(set(n for n in names if isinstance(n, str) and n and os.path.isdir(os.path.join(wd, n))))
 
 
+def is_recursive_text(text):
+    try:
+        return is_recursive(yaml.safe_load(text))
+    except Exception:
+        return False
+
+
 def check_docs(ck, cases, variant_repaired=True, search=True):
     """cases: list of (kind, text, cli args, is_valid_generated)"""
     obs, ops = [], []
     to_search = []
-    for i, (kind, text, cli, valid) in enumerate(cases):
+    for i, case in enumerate(cases):
+        kind, text, cli, valid = case[:4]
+        group = case[4] if len(case) > 4 else None
         try:
             doc = yaml.safe_load(text)
             yaml_ok = True
@@ -439,16 +469,20 @@ def check_docs(ck, cases, variant_repaired=True, search=True):
             doc, yaml_ok = None, False
         except RecursionError:
             continue
+        recursive = yaml_ok and is_recursive(doc)
         st, phase, where, r = run_impl(ck, text, cli, ck.evaluations + i)
         ck.impl_traces += 1
-        obs.append((kind, text, cli, valid, yaml_ok, st, where, phase, r))
-        if yaml_ok:
+        obs.append((kind, text, cli, valid, yaml_ok and not recursive, st, where, phase, r, group))
+        if yaml_ok and not recursive:
             req = {'op': 'c19.compile', 'doc': to_wire(doc), 'repaired': variant_repaired,
                    'unreadable': unreadable_files(ck, doc)}
             req.update(cli_model(cli))
             ops.append(req)
     answers = iter(ck.model(ops))
-    for (kind, text, cli, valid, yaml_ok, st, where, phase, r) in obs:
+    groups = {}
+    for (kind, text, cli, valid, yaml_ok, st, where, phase, r, group) in obs:
+        if group is not None:
+            groups.setdefault(group, []).append((kind, text, cli, st, r.runs))
         inp = {'mutation': kind, 'yaml': text, 'cli': cli}
         mclass = kind.split(':')[0]
         ck.count('mutation:' + mclass)
@@ -465,6 +499,9 @@ def check_docs(ck, cases, variant_repaired=True, search=True):
         if valid and st != 'ok':
             ck.oracle_fail('valid_accepted', inp, {'status': st, 'stderr': r.stderr[-400:], 'stdout': r.stdout[-400:]},
                            signature={'clause': 'valid_accepted', 'status': st})
+        if not yaml_ok and is_recursive_text(text):
+            ck.count('recursive-document(oracle only)')
+            continue
         if not yaml_ok:
             if st != 'ui_error':
                 ck.oracle_fail('yaml_error_diagnosed', inp, {'status': st}, signature={'clause': 'yaml_error_diagnosed'})
@@ -485,6 +522,16 @@ def check_docs(ck, cases, variant_repaired=True, search=True):
                         {'outcome': ans['outcome'], 'schema_ok': ans['schema_ok'], 'raised': ans['raised']}, THEOREMS)
             if not st.startswith('crash:'):
                 to_search.append((text, cli))
+    # documents of one group are the same configuration written differently (anchors, aliases,
+    # merge keys with overrides): all accepted, with the same set of runs
+    for g, members in groups.items():
+        ref = members[0]
+        for m in members[1:]:
+            ck.count('factored-vs-plain compared')
+            if m[3] != ref[3] or (m[3] == 'ok' and m[4] != ref[4]):
+                ck.oracle_fail('anchors_equivalent', {'mutation': m[0], 'yaml': m[1], 'cli': m[2], 'plain_yaml': ref[1]},
+                               {'plain': {'status': ref[3], 'runs': ref[4]}, 'factored': {'status': m[3], 'runs': m[4]}},
+                               signature={'clause': 'anchors_equivalent', 'plain': ref[3], 'factored': m[3]})
     if search and to_search and ck.dist.get('neighbourhood-searches', 0) < 3:
         neighbourhood(ck, to_search[:3], variant_repaired)
 
@@ -509,6 +556,85 @@ def neighbourhood(ck, items, variant_repaired):
             except Exception:
                 continue
     check_docs(ck, cases, variant_repaired, search=False)
+
+
+DETAIL_KEYS = ['invocations', 'iterations', 'warmup', 'max_invocation_time', 'min_iteration_time',
+               'retries_after_failure', 'ignore_timeouts', 'execute_exclusively', 'env']
+VAR_KEYS = ['input_sizes', 'cores', 'variable_values', 'tags']
+
+
+def factor(rng, cfg):
+    """the same configuration written with anchors, aliases and merge keys: common settings
+    are moved into anchored maps under a dot key and merged with `<<`, some of the merged
+    keys are overridden by the map itself (the documented way to share settings); identical
+    sub-documents become aliases. Returns YAML text, or None if nothing could be factored."""
+    cfg = copy.deepcopy(cfg)
+    MERGE = '__verif_merge__'
+    defs = {}
+    targets = []   # maps that may carry run details (and variables)
+    if isinstance(cfg.get('runs'), dict):
+        targets.append((cfg['runs'], False))
+    for sec in ('benchmark_suites', 'executors', 'experiments', 'machines'):
+        for v in (cfg.get(sec) or {}).values():
+            if isinstance(v, dict):
+                targets.append((v, True))
+    for sv in (cfg.get('benchmark_suites') or {}).values():
+        for b in sv.get('benchmarks', []):
+            if isinstance(b, dict):
+                for det in b.values():
+                    if isinstance(det, dict):
+                        targets.append((det, True))
+    for xv in (cfg.get('experiments') or {}).values():
+        for e in xv.get('executions', []) or []:
+            if isinstance(e, dict):
+                for det in e.values():
+                    if isinstance(det, dict):
+                        targets.append((det, True))
+    n = 0
+    for (m, with_vars) in targets:
+        allowed = DETAIL_KEYS + (VAR_KEYS if with_vars else [])
+        mine = [k for k in m if k in allowed]
+        if rng.random() < 0.35:
+            continue
+        moved = [k for k in mine if rng.random() < 0.5]
+        anchor = {k: m[k] for k in moved}
+        # keys the anchored map sets as well and the map overrides
+        for k in mine:
+            if k not in moved and rng.random() < 0.6:
+                anchor[k] = rng.choice([1, 7, '9!']) if k in ('invocations', 'iterations', 'warmup') else copy.deepcopy(m[k])
+        # settings the map does not have cannot be added (they would change the configuration)
+        if not anchor:
+            if not mine and rng.random() < 0.5:
+                continue
+            anchor = {}
+        if not anchor:
+            continue
+        n += 1
+        name = 'd%d' % n
+        defs[name] = anchor
+        rest = [(k, m[k]) for k in m if k not in moved]
+        m.clear()
+        m[MERGE] = anchor
+        for k, v in rest:
+            m[k] = v
+    # aliases for identical sub-documents: the second of two equal executors / benchmark lists
+    ex = cfg.get('executors') or {}
+    names = list(ex)
+    for i in range(1, len(names)):
+        if ex[names[i]] == ex[names[0]]:
+            ex[names[i]] = ex[names[0]]
+            n += 1
+    sv = list((cfg.get('benchmark_suites') or {}).values())
+    for i in range(1, len(sv)):
+        if sv[i].get('benchmarks') == sv[0].get('benchmarks'):
+            sv[i]['benchmarks'] = sv[0]['benchmarks']
+            n += 1
+    if n == 0:
+        return None
+    out = {'.defs': defs} if defs else {}
+    out.update(cfg)
+    text = yaml.safe_dump(out, default_flow_style=False, sort_keys=False)
+    return text.replace(MERGE + ':', '<<:')
 
 
 def dump(cfg):
@@ -545,7 +671,7 @@ def run(ck):
     ck.count('corpus', len(cases))
     cases += [(k, t, [], False) for (k, t) in ANCHOR_TEXTS]
     cases += [(k + '/-p', t, ['-p'], False) for (k, t) in ANCHOR_TEXTS if k.startswith(('command-', 'quoted-', 'anchor-merge'))]
-    n = 280 if quick else 3500
+    n = 240 if quick else 3000
     for _ in range(n):
         cfg = gen_valid(ck.rng)
         cli = ck.rng.choice(CLI_VARIANTS)
@@ -556,7 +682,16 @@ def run(ck):
         valid = cli not in (['X9'], ['-m', 'm9']) and (not needs_x or 'X1' in cfg['experiments'])
         if cfg.get('default_experiment') == 'X1' and 'X1' not in cfg['experiments']:
             valid = False
-        cases.append(('valid' if valid else 'dangling-cli', dump(cfg), cli, valid))
+        grp = len(cases)
+        cases.append(('valid' if valid else 'dangling-cli', dump(cfg), cli, valid, grp))
+        ftext = factor(ck.rng, cfg)
+        if ftext is not None:
+            # parsed, the factored text must be the same configuration (plus the dot key)
+            back = yaml.safe_load(ftext)
+            back.pop('.defs', None)
+            if back != cfg:
+                raise lib.InfraError('factoring changed the configuration')
+            cases.append(('valid-factored' if valid else 'dangling-cli-factored', ftext, cli, valid, grp))
         for _m in range(3):
             k, m = mutate(ck.rng, cfg)
             if ck.rng.random() < 0.3:
@@ -567,8 +702,14 @@ def run(ck):
             except Exception:
                 continue
             cases.append((k, text, cli if ck.rng.random() < 0.5 else [], False))
-    for i in range(0, len(cases), 400):
-        check_docs(ck, cases[i:i + 400], repaired)
+    # keep the members of a group in one batch
+    i = 0
+    while i < len(cases):
+        j = min(len(cases), i + 400)
+        while j < len(cases) and len(cases[j]) > 4 and len(cases[j - 1]) > 4 and cases[j][4] == cases[j - 1][4]:
+            j += 1
+        check_docs(ck, cases[i:j], repaired)
+        i = j
 
 
 def replay(ck, data):
